@@ -434,6 +434,28 @@ fn emit_fn(out: &mut Value, req: &Value, sig: &Signature, block: &Block, impl_hd
     if sig.asyncness.is_some() {
         n.log("N10-async-without-await", sig.ident.span());
     }
+    // optional nested slice (N11): one inner statement becomes the body
+    if let Some(anchor) = req["slice_stmt"].as_str() {
+        match norm::find_stmt(&b, anchor) {
+            Some(st) => {
+                let st = match st {
+                    Stmt::Expr(e, None) => Stmt::Expr(e, Some(Default::default())),
+                    other => other,
+                };
+                let mut stmts = vec![st];
+                if let Some(tail) = req["slice_tail"].as_str() {
+                    let te: Expr = syn::parse_str(tail).expect("slice_tail");
+                    stmts.push(Stmt::Expr(te, None));
+                }
+                b = Block { brace_token: Default::default(), stmts };
+                n.log("N11-slice-stmt", sig.ident.span());
+            }
+            None => {
+                out["error"] = json!(format!("LOST-ANCHOR slice_stmt not found: {}", anchor));
+                return;
+            }
+        }
+    }
     // optional slice (N11): keep only statements between two anchors
     if let Some(sl) = req.get("slice") {
         if !sl.is_null() {
